@@ -78,7 +78,7 @@ func checkC06(c C06Case, env *Env) *Violation {
 				env.Stats.mu.Unlock()
 				continue
 			}
-			if gate("c05-bracket-quote") && kfBracketQuote(f.Text, o.Name.Off) {
+			if (gate("c05-bracket-quote") && kfBracketQuote(f.Text, o.Name.Off)) || (gate("c05-glued-bracket") && kfGluedBracket(f.Text, o.Name.Off)) {
 				excludedIn(env)
 				continue
 			}
